@@ -443,8 +443,11 @@ type Opt struct {
 }
 
 // New builds a fresh transport over a fresh recording store.
-func New(o Opt) *W {
-	w := &W{Origin: NewOrigin(), Epoch: time.Now()}
+func New(o Opt) *W { return NewWithOrigin(o, NewOrigin()) }
+
+// NewWithOrigin is New with an existing scripted origin (e.g. a second transport over the same store).
+func NewWithOrigin(o Opt, origin *Origin) *W {
+	w := &W{Origin: origin, Epoch: time.Now()}
 	dsn := o.DSN
 	if dsn == "" {
 		if o.Conn != nil {
